@@ -138,8 +138,8 @@ def rowlenselect(table, n, complement=False):
 # regular-expression search: a row matches when the pattern is found in the text of any searched cell
 # ---------------------------------------------------------------------------------------------
 
-def search(table, pattern, fis=None, complement=False):
-    prog = re.compile(pattern)
+def search(table, pattern, fis=None, complement=False, flags=0):
+    prog = re.compile(pattern, flags)
 
     def pred(r):
         cells = r if fis is None else [r[i] for i in fis]
